@@ -17,7 +17,7 @@ RULE = ("random acyclic component graphs (2-12 nodes, all component types, requi
         "dependency reached along two paths).")
 ASSUMPTIONS = ["graphs are acyclic; component bodies do not touch the broker themselves"]
 
-KINDS = dyn.DRIVERS + ["run_incremental", "run_all"]
+KINDS = dyn.DRIVERS + ["run_incremental", "run_all", "run_all_pool"]
 
 
 @st.composite
@@ -25,6 +25,9 @@ def cases(draw, tier="quick"):
     case = draw(dyn.graphs(max_nodes=12 if tier == "quick" else 16, parts=draw(st.sampled_from([1, 1, 2, 3])),
                             none_seeds=True))
     case["driver"] = draw(dyn.driver(len(case["nodes"]), kinds=KINDS))
+    # the same graph object evaluated again with a fresh broker (dr.run() on a group, cluster processing,
+    # an evaluator called repeatedly): every evaluation has to satisfy the property on its own
+    case["repeat"] = draw(st.sampled_from([1, 1, 2, 3]))
     return case
 
 
@@ -60,67 +63,71 @@ def check(case):
                     raise Violation("get_dependency_graph(node %d) lists wrong dependencies for node %d" % (
                         t, b.index[c]))
         # dynamic part
-        broker, escaped = dyn.execute(case, b, drv)
-        if escaped is not None:
-            raise Violation("evaluation raised %s: %s" % (type(escaped).__name__, escaped))
-        seeded = set(case["seeded"])
-        first_event = {}
-        obs_pos = {}
-        whole_calls = {}
-        elem_calls = {}
-        obs_count = {}
-        for k, ev in enumerate(b.log):
-            i = ev[1]
-            first_event.setdefault(i, k)
-            if ev[0] == "obs":
-                obs_count[i] = obs_count.get(i, 0) + 1
-                obs_pos.setdefault(i, k)
-            else:
-                if ev[3] is None:
-                    whole_calls[i] = whole_calls.get(i, 0) + 1
+        graphs = {}
+        for rep in range(int(case.get("repeat", 1))):
+            b.log[:] = []
+            b.raised.clear()
+            broker, escaped = dyn.execute(case, b, drv, graphs=graphs)
+            if escaped is not None:
+                raise Violation("evaluation raised %s: %s" % (type(escaped).__name__, escaped))
+            seeded = set(case["seeded"])
+            first_event = {}
+            obs_pos = {}
+            whole_calls = {}
+            elem_calls = {}
+            obs_count = {}
+            for k, ev in enumerate(b.log):
+                i = ev[1]
+                first_event.setdefault(i, k)
+                if ev[0] == "obs":
+                    obs_count[i] = obs_count.get(i, 0) + 1
+                    obs_pos.setdefault(i, k)
                 else:
-                    elem_calls.setdefault(i, []).append(ev[3])
-        for i in range(n):
-            if whole_calls.get(i, 0) > 1:
-                raise Violation("node %d ran %d times" % (i, whole_calls[i]), node=i)
-            if whole_calls.get(i) and elem_calls.get(i):
-                raise Violation("node %d ran both as a whole and per element" % i, node=i)
-            if i in elem_calls and elem_calls[i] != list(range(len(elem_calls[i]))):
-                raise Violation("multi-output node %d processed its elements as %r" % (i, elem_calls[i]), node=i)
-            ran = i in whole_calls or i in elem_calls
-            if ran and i in seeded:
-                raise Violation("seeded node %d was recomputed" % i, node=i)
-            if ran and i not in active:
-                raise Violation("node %d ran although it is not part of the evaluated graph" % i, node=i)
-            if i in active and obs_count.get(i, 0) != 1:
-                raise Violation("observer fired %d times for participating node %d (expected once)" % (
-                    obs_count.get(i, 0), i), node=i)
-            if obs_count.get(i, 0) > 1:
-                raise Violation("observer fired %d times for node %d" % (obs_count[i], i), node=i)
-            if ran and i in obs_pos and obs_pos[i] < first_event[i]:
-                raise Violation("observer for node %d fired before the node ran" % i)
-            if i in first_event and (ran or i in active):
-                for j in dyn.dep_set(nodes[i]):
-                    if j in active and not (j in obs_pos and obs_pos[j] < first_event[i]):
-                        raise Violation("node %d was attempted before its dependency %d had been attempted" % (i, j),
-                                        node=i, dependency=j)
-        for i in seeded:
-            want = dyn.seed_value(case, i)
-            if comps[i] not in broker:
-                raise Violation("seeded value of node %d disappeared" % i, node=i)
-            v = broker[comps[i]]
-            if v != want or type(v) is not type(want):
-                raise Violation("seeded value of node %d was replaced by %r" % (i, v), node=i)
-        # a stored value can never be overwritten
-        for c in list(broker.instances)[:3]:
-            before = broker[c]
-            try:
-                broker[c] = ("overwrite",)
-                raise Violation("Broker.__setitem__ silently overwrote the value of node %r" % (b.index.get(c),))
-            except KeyError:
-                pass
-            if broker[c] is not before:
-                raise Violation("Broker value changed by a rejected overwrite")
+                    if ev[3] is None:
+                        whole_calls[i] = whole_calls.get(i, 0) + 1
+                    else:
+                        elem_calls.setdefault(i, []).append(ev[3])
+            for i in range(n):
+                if whole_calls.get(i, 0) > 1:
+                    raise Violation("node %d ran %d times" % (i, whole_calls[i]), node=i)
+                if whole_calls.get(i) and elem_calls.get(i):
+                    raise Violation("node %d ran both as a whole and per element" % i, node=i)
+                if i in elem_calls and elem_calls[i] != list(range(len(elem_calls[i]))):
+                    raise Violation("multi-output node %d processed its elements as %r" % (i, elem_calls[i]), node=i)
+                ran = i in whole_calls or i in elem_calls
+                if ran and i in seeded:
+                    raise Violation("seeded node %d was recomputed" % i, node=i)
+                if ran and i not in active:
+                    raise Violation("node %d ran although it is not part of the evaluated graph" % i, node=i)
+                if i in active and obs_count.get(i, 0) != 1:
+                    raise Violation("observer fired %d times for participating node %d (expected once)" % (
+                        obs_count.get(i, 0), i), node=i)
+                if obs_count.get(i, 0) > 1:
+                    raise Violation("observer fired %d times for node %d" % (obs_count[i], i), node=i)
+                if ran and i in obs_pos and obs_pos[i] < first_event[i]:
+                    raise Violation("observer for node %d fired before the node ran" % i)
+                if i in first_event and (ran or i in active):
+                    for j in dyn.dep_set(nodes[i]):
+                        if j in active and not (j in obs_pos and obs_pos[j] < first_event[i]):
+                            raise Violation("node %d was attempted before its dependency %d had been attempted" % (i, j),
+                                            node=i, dependency=j)
+            for i in seeded:
+                want = dyn.seed_value(case, i)
+                if comps[i] not in broker:
+                    raise Violation("seeded value of node %d disappeared" % i, node=i)
+                v = broker[comps[i]]
+                if v != want or type(v) is not type(want):
+                    raise Violation("seeded value of node %d was replaced by %r" % (i, v), node=i)
+            # a stored value can never be overwritten
+            for c in list(broker.instances)[:3]:
+                before = broker[c]
+                try:
+                    broker[c] = ("overwrite",)
+                    raise Violation("Broker.__setitem__ silently overwrote the value of node %r" % (b.index.get(c),))
+                except KeyError:
+                    pass
+                if broker[c] is not before:
+                    raise Violation("Broker value changed by a rejected overwrite")
         # labels
         indeg = {}
         for nd in nodes:
